@@ -22,7 +22,8 @@ mkdir -p $OUT
 OBJS=""
 for src in $ROOT/sim/*.cpp; do
   o=$OUT/$(basename $src .cpp).o
-  if [ ! -f $o ] || [ $src -nt $o ] || [ $ROOT/sim/sim.h -nt $o ] || [ $B/config.h -nt $o ]; then
+  # the simulator includes driver headers (struct layouts): rebuild when any header of the tree under test is newer
+  if [ ! -f $o ] || [ $src -nt $o ] || [ $ROOT/sim/sim.h -nt $o ] || [ $B/config.h -nt $o ] || [ -n "$(find $REPO/src $REPO/lib -name '*.h' -newer $o -print -quit)" ]; then
     clang++ -std=c++17 -O1 -g $SAN $INC -w -c $src -o $o &
   fi
   OBJS="$OBJS $o"
